@@ -29,16 +29,19 @@ CONSTANTS
     Metas,       \* [name -> [nameLen, symLen, decimals, utf8]]   token metadata catalogue
     Deliveries,  \* [name -> [key, srcChain, srcAddr, dest, payload]]
     Payloads,    \* [name -> abstract hub payload, see PayloadOK below]
-    Keys         \* message keys of the gateway approval table
+    Keys,        \* message keys of the gateway approval table
+    Deviations   \* recorded defects of the code, modelled as named branches ("model what the code does, name
+                 \* the deviation"): {} = the intended design, checked by TLC; the replay graph and the
+                 \* trace specification run with the recorded ones switched on
 
 HubChain == "axelar"
 HubAddr == "hub"
 Tokens == Ids \cup Canon
 
 Rej(st, why, fails) ==
-    [ok |-> FALSE, why |-> why, fails |-> fails, free |-> FALSE, ret |-> "none", ev |-> <<>>, post |-> st]
+    [ok |-> FALSE, why |-> why, fails |-> fails, free |-> FALSE, ret |-> "none", ev |-> <<>>, post |-> st, dev |-> "none"]
 Acc(st2, ret, ev) ==
-    [ok |-> TRUE, why |-> "ok", fails |-> {}, free |-> FALSE, ret |-> ret, ev |-> ev, post |-> st2]
+    [ok |-> TRUE, why |-> "ok", fails |-> {}, free |-> FALSE, ret |-> ret, ev |-> ev, post |-> st2, dev |-> "none"]
 Order == <<"role_auth", "positive_amount", "named_auth", "invalid_minter", "already_set", "not_set",
            "approved", "is_receive_from_hub", "hub_chain", "hub_address", "decodes", "origin_trusted",
            "recipient_decodes", "registered", "already_registered", "already_deployed", "metadata",
@@ -85,18 +88,22 @@ TransferOwnership(st, a) ==
 
 -----------------------------------------------------------------------------
 (* deploy_interchain_token(caller, salt, metadata, initial_supply, minter) *)
-DeployInterchainToken(st, a) ==
+DeployInterchainToken(st, a, devs) ==
     LET id == IdOf[a.caller][a.salt]
         fails == (IF a.caller \notin a.auth THEN {"named_auth"} ELSE {})
                  \cup (IF a.supply <= 0 /\ a.minter = "its" THEN {"invalid_minter"} ELSE {})
                  \cup (IF st.reg[id] # "none" THEN {"already_deployed"} ELSE {})
                  \cup (IF ~MetaValid(a.meta) THEN {"metadata"} ELSE {})
         \* roles of a deployed token: owned by the service; the service and the designated minter may mint
-        mint == [x \in Accts |-> x = "its" \/ (a.minter # "none" /\ x = a.minter)]
+        \* recorded deviation: with a positive supply and a third-party minter the code revokes the service
+        revoked == "its_minter_revoked" \in devs /\ a.supply > 0 /\ a.minter \notin {"none", "its"}
+        mint == IF revoked THEN [x \in Accts |-> x = a.minter]
+                ELSE [x \in Accts |-> x = "its" \/ (a.minter # "none" /\ x = a.minter)]
         st2 == [st EXCEPT !.reg[id] = "native", !.regTok[id] = id, !.tokMeta[id] = a.meta,
                           !.minters[id] = mint,
                           !.bal[id][a.caller] = IF a.supply > 0 THEN a.supply ELSE 0]
-        res == Guarded(st, fails, Acc(st2, id, <<>>))
+        res0 == Guarded(st, fails, Acc(st2, id, <<>>))
+        res == [res0 EXCEPT !.dev = IF res0.ok /\ revoked THEN "its_minter_revoked" ELSE "none"]
     IN \* open by the statement: a negative supply (treated as none today) and naming the service itself
        \* as minter without supply (refused today)
        [res EXCEPT !.free = (fails = {} /\ a.supply < 0) \/ fails = {"invalid_minter"}]
@@ -168,7 +175,7 @@ IsRecv(p) == p.outer = "recv"
 
 (* execute(source_chain, message_id, source_address, payload): D = the submitted fields, `approved` =
    the gateway holds a matching unexecuted approval for the service, `done` = state with it consumed *)
-ExecuteCore(st, D, approved, done, key) ==
+ExecuteCore(st, D, approved, done, key, devs) ==
     LET P == Payloads[D.payload]
         wrapOK == IsRecv(P)
         decoded == wrapOK /\ P.decodes
@@ -181,7 +188,8 @@ ExecuteCore(st, D, approved, done, key) ==
             (IF ~approved THEN {"approved"} ELSE {})
             \cup (IF ~wrapOK THEN {"is_receive_from_hub"} ELSE {})
             \cup (IF D.srcChain # HubChain THEN {"hub_chain"} ELSE {})
-            \cup (IF D.srcAddr # HubAddr THEN {"hub_address"} ELSE {})
+            \* recorded deviation: the code never compares the source address with the hub address
+            \cup (IF D.srcAddr # HubAddr /\ "its_hub_address_unchecked" \notin devs THEN {"hub_address"} ELSE {})
             \cup (IF wrapOK /\ ~P.decodes THEN {"decodes"} ELSE {})
             \cup (IF decoded /\ ~st.trusted[P.origin] THEN {"origin_trusted"} ELSE {})
             \cup (IF xfer /\ ~toOK THEN {"recipient_decodes"} ELSE {})
@@ -197,30 +205,32 @@ ExecuteCore(st, D, approved, done, key) ==
                 ELSE [done EXCEPT !.bal[T] = [[@ EXCEPT !["its"] = @ - P.amt] EXCEPT ![P.recipient] = @ + P.amt]]  \* released
         deployed == [done EXCEPT !.reg[P.id] = "native", !.regTok[P.id] = P.id, !.tokMeta[P.id] = P.meta,
                                  !.minters[P.id] = [x \in Accts |-> x = "its" \/ (P.minter # "none" /\ x = P.minter)]]
+        label == IF D.srcAddr # HubAddr THEN "its_hub_address_unchecked" ELSE "none"
     IN IF fails # {} THEN Rej(st, First(fails), fails)
        ELSE IF P.inner = "transfer"
-            THEN Acc(give, "unit",
+            THEN [Acc(give, "unit",
                      <<[k |-> "delivery_executed", key |-> key],
                        [k |-> "transfer_received", origin |-> P.origin, id |-> P.id, recipient |-> P.recipient, amt |-> P.amt]>>
                      \o (IF P.data # "none"
                          THEN <<[k |-> "token_executed", app |-> P.recipient, id |-> P.id, amt |-> P.amt]>> ELSE <<>>))
-            ELSE Acc(deployed, "unit", <<[k |-> "delivery_executed", key |-> key]>>)
+                  EXCEPT !.dev = label]
+            ELSE [Acc(deployed, "unit", <<[k |-> "delivery_executed", key |-> key]>>) EXCEPT !.dev = label]
 
 (* a relayer submits the fields of catalogue delivery a.d *)
-Execute(st, a) ==
+Execute(st, a, devs) ==
     LET D == Deliveries[a.d]
         cur == st.appr[D.key]
         approved == /\ cur \in DOMAIN Deliveries
                     /\ Deliveries[cur].srcChain = D.srcChain /\ Deliveries[cur].srcAddr = D.srcAddr
                     /\ Deliveries[cur].payload = D.payload /\ Deliveries[cur].dest = "its"
-    IN ExecuteCore(st, D, approved, [st EXCEPT !.appr[D.key] = "executed"], D.key)
+    IN ExecuteCore(st, D, approved, [st EXCEPT !.appr[D.key] = "executed"], D.key, devs)
 
 (* a hub delivery under a fresh message id, approved for the service and executed at once (instances
    whose subject is not the approval table use it to feed inbound messages without tracking ids) *)
-Deliver(st, a) ==
+Deliver(st, a, devs) ==
     ExecuteCore(st, [srcChain |-> IF "srcChain" \in DOMAIN a THEN a.srcChain ELSE HubChain,
                      srcAddr |-> IF "srcAddr" \in DOMAIN a THEN a.srcAddr ELSE HubAddr,
-                     payload |-> a.payload], TRUE, st, "fresh")
+                     payload |-> a.payload], TRUE, st, "fresh", devs)
 
 -----------------------------------------------------------------------------
 (* contracts/example: send(caller, destination_chain, destination_address, message, gas_token):
@@ -240,21 +250,24 @@ MinterMint(st, a) ==       \* token.mint_from(minter, to, amount) by a designate
        ELSE Acc([st EXCEPT !.bal[a.id][a.to] = @ + a.amt], "unit", <<>>)
 SetFakeMeta(st, a) == Acc([st EXCEPT !.fkMeta = a.meta], "unit", <<>>)
 
-Apply(st, a) ==
+ApplyD(st, a, devs) ==
     CASE a.name = "SetTrusted"                   -> SetTrusted(st, a)
       [] a.name = "RemoveTrusted"                -> RemoveTrusted(st, a)
       [] a.name = "TransferOwnership"            -> TransferOwnership(st, a)
-      [] a.name = "DeployInterchainToken"        -> DeployInterchainToken(st, a)
+      [] a.name = "DeployInterchainToken"        -> DeployInterchainToken(st, a, devs)
       [] a.name = "RegisterCanonical"            -> RegisterCanonical(st, a)
       [] a.name = "DeployRemoteInterchainToken"  -> DeployRemoteInterchainToken(st, a)
       [] a.name = "DeployRemoteCanonical"        -> DeployRemoteCanonical(st, a)
       [] a.name = "InterchainTransfer"           -> InterchainTransfer(st, a)
       [] a.name = "ApproveDelivery"              -> ApproveDelivery(st, a)
-      [] a.name = "Execute"                      -> Execute(st, a)
-      [] a.name = "Deliver"                      -> Deliver(st, a)
+      [] a.name = "Execute"                      -> Execute(st, a, devs)
+      [] a.name = "Deliver"                      -> Deliver(st, a, devs)
       [] a.name = "MinterMint"                   -> MinterMint(st, a)
       [] a.name = "ExampleSend"                  -> ExampleSend(st, a)
       [] a.name = "SetFakeMeta"                  -> SetFakeMeta(st, a)
+
+Apply(st, a) == ApplyD(st, a, Deviations)        \* what the code does (with the recorded deviations)
+ApplyIntended(st, a) == ApplyD(st, a, {})        \* the design
 
 -----------------------------------------------------------------------------
 RECURSIVE SumOver(_, _)
